@@ -42,9 +42,17 @@ func TestVerifC20Node(t *testing.T) {
 			// (its Ignore must survive whatever the others say)
 			seqInline := c.Chance(0.5)
 			acceptAll := func(context.Context, peer.ID, *Message) ValidationResult { return ValidationAccept }
-			opts := []Option{WithDefaultValidator(NewBasicSeqnoValidator(store, c20Discard), WithValidatorInline(seqInline)), WithSeenMessagesTTL(time.Second),
-				WithValidateWorkers(c.Range(1, 8))}
+			seqOpts := []ValidatorOpt{WithValidatorInline(seqInline)}
 			companions := ""
+			if !seqInline && c.Chance(0.4) {
+				// one or two concurrent runs of the seqno validator at most: copies arriving meanwhile are throttled, which
+				// must drop them (nobody has compared them with the nonce), whatever the other validators say
+				k := c.Range(1, 2)
+				seqOpts = append(seqOpts, WithValidatorConcurrency(k))
+				companions += fmt.Sprintf("seqno concurrency=%d ", k)
+			}
+			opts := []Option{WithDefaultValidator(NewBasicSeqnoValidator(store, c20Discard), seqOpts...), WithSeenMessagesTTL(time.Second),
+				WithValidateWorkers(c.Range(1, 8))}
 			if c.Chance(0.6) {
 				in := c.Chance(0.6)
 				opts = append(opts, WithDefaultValidator(acceptAll, WithValidatorInline(in)))
